@@ -115,7 +115,9 @@ def ensure_built():
     t = time.time()
     r = subprocess.run(["lake", "build"], cwd=LEAN, capture_output=True, text=True)
     if r.returncode != 0:
-        raise Infra("lake build failed:\n" + (r.stdout + r.stderr)[-4000:])
+        log = (r.stdout + r.stderr).split("\n")
+        errs = [l for l in log if "error" in l.lower()][:12]
+        raise Infra("lake build failed:\n" + "\n".join(errs or log[-15:]))
     if not HMODEL.exists():
         raise Infra("driver %s missing after lake build" % HMODEL)
     return time.time() - t
@@ -197,10 +199,15 @@ def leanchecker(modules):
 # ----------------------------------------------------------------------------
 # cases
 # ----------------------------------------------------------------------------
+_MODEL_CMD = None
+
+
 def case_lines(case):
-    """model input lines of a case: session header, configuration lines, commands"""
+    """model input lines of a case: session header, configuration lines, commands (a property may map
+    several implementation entry points to one model command through `model_cmd`)"""
+    f = _MODEL_CMD or (lambda c: c)
     return ["session " + case["session"]] + [" ".join(map(str, c)) for c in case.get("cfg", [])] + \
-           [" ".join(map(str, c)) for c in case["cmds"]]
+           [" ".join(map(str, f(c))) for c in case["cmds"]]
 
 
 def split_ms(line):
@@ -346,7 +353,8 @@ def _shard(args):
             if time.time() > deadline:
                 stats["timeout"] = True
                 break
-            if len(stats["failures"]) >= 3:
+            nviol = sum(1 for f in stats["failures"] if any(o["kind"] == "violation" for o in f["outcomes"]))
+            if nviol >= 2 or len(stats["failures"]) >= 8:
                 break
     stats["nontrivial"] = list(stats["nontrivial"])
     return stats
@@ -418,7 +426,8 @@ def corpus_cases(prop):
 
 
 def run_check(prop, tier, seed, replay=None):
-    global _HYP, _PROP
+    global _HYP, _PROP, _MODEL_CMD
+    _MODEL_CMD = getattr(prop, "model_cmd", None)
     t0 = time.time()
     violations = []        # (replay path, suffix)
     known_lines = []
@@ -582,12 +591,17 @@ def run_check(prop, tier, seed, replay=None):
                     repaired.setdefault(k, v)
                 if st["timeout"]:
                     notes.append("time budget reached; %d cases done in one shard" % st["evaluations"])
-            nfail = 0
-            for st in results:
-                for f in st["failures"]:
-                    if nfail < 3:
-                        handle_failure(f["case"], "generated")
-                        nfail += 1
+            # concrete failing inputs first, correspondence-only drift after them
+            allf = [f for st in results for f in st["failures"]]
+            allf.sort(key=lambda f: (0 if any(o["kind"] == "violation" for o in f["outcomes"]) else 1,
+                                     len(f["case"]["cmds"])))
+            have_input = False
+            for n, f in enumerate(allf[:3]):
+                is_drift = not any(o["kind"] == "violation" for o in f["outcomes"])
+                if is_drift and have_input:
+                    break       # a concrete failing input is already reported
+                handle_failure(f["case"], "generated")
+                have_input = have_input or not is_drift
 
     # ---- known findings ----------------------------------------------------
     for fid, rec in reproduced.items():
